@@ -3,7 +3,7 @@
    [flog finit ops] is the log (generation, registry key, instance id) of every dynsampler
    creation request in a history of creations (any worker, any order, top-level or downstream),
    ClearDynsamplers and membership changes. *)
-From Refinery Require Import Lib.Base Model.TraceKey Model.Registry Proofs.Registry.
+From Refinery Require Import Lib.Base Lib.Strs_samp Model.Registry Proofs.Registry.
 From Refinery Require Gen.GenC12.
 From Coq Require Import Permutation.
 
